@@ -353,7 +353,9 @@ impl<'a> Gen<'a> {
             2 => {
                 let v = gen_value(self.rng, &p);
                 let t = self.ttl();
-                SymReq::store(pick(self.rng, &p, op::ADD, op::ADDQ), &key, v, self.rng.next() as u32, t, CasSel::Zero)
+                // an add may carry a CAS too (it is stored as the item's first CAS token)
+                let cas = gen_cas(self.rng, &p);
+                SymReq::store(pick(self.rng, &p, op::ADD, op::ADDQ), &key, v, self.rng.next() as u32, t, cas)
             }
             3 => {
                 let v = gen_value(self.rng, &p);
